@@ -78,14 +78,15 @@ def scale_value(rnd, taken_values, safe=False):
         kind = rnd.random()
         if taken_values and kind < 0.15:
             return rnd.choice(sorted(taken_values))  # a tie
-        if rnd.random() < 0.10:
+        if rnd.random() < 0.08:
             # tiny scales at the resolution of the decimal type: their order
             # must still be the order of their values
             v = Fraction(rnd.randint(1, 199), 10**18)
             tiny = True
-        elif rnd.random() < 0.08:
+        elif rnd.random() < 0.12:
             # integers beyond the range of i32 (an integer literal has to work as a scale, too)
-            v = Fraction(rnd.choice([2147483648, 3000000000, 4294967296, 10**10]))
+            v = Fraction(rnd.choice([2147483648, 3000000000, 4294967296, 10**10, 9007199254740993, 10**17 + 1, 123456789012345678]))
+            tiny = True  # exempt from the range limit; operator checks are gated by the scale ratio
         elif kind < 0.4:
             v = Fraction(rnd.choice([2, 3, 5, 7, 10, 12, 24, 60, 100, 144, 1000, 1024, 3600, 86400, 1000000, 10**9, 10**12]))
         elif kind < 0.7:
@@ -165,6 +166,8 @@ def random_units(rnd, n, with_ref, taken_idents, allow_prefix=True, safe=False):
             v = scale_value(rnd, values, safe)
             values.add(v)
             u["scale"] = rnd.choice(literal_forms(v))
+            if v.denominator == 1 and v.numerator > 2**31 - 1 and rnd.random() < 0.8:
+                u["scale"] = str(v.numerator)  # the point of these values is the integer literal form
             assert literal_value(u["scale"]) == v, (u["scale"], v)
         if rnd.random() < 0.3:
             u["doc"] = rnd.choice(["plain doc", "with \"quotes\"", "two\nlines", "1000·x", "tab\there \\ backslash"])
